@@ -32,3 +32,15 @@ Lemma rw_rejected : trace_ok rw_cfg 0 (model_trace rw_cfg 0 rw_evs) = false /\ t
 Proof. split; vm_compute; reflexivity. Qed.
 Lemma rw_others_accept : trace_sub [0;1;2;3;4;5;6;7;8;9;10;11;12;13;15;16;17;18]%nat rw_cfg 0 (model_trace rw_cfg 0 rw_evs) = true.
 Proof. vm_compute. reflexivity. Qed.
+
+(* one more event: the worker asks again while it holds the task; with retry count 0 the model fails the task (INTERNAL)
+   at once, and position 15 (e_early) reads m_reissue[w] = (ops, 1) with 1 <> 0: "C06:task-failed-before-retry-limit" *)
+Definition rw_evs2 : list (event * list (nat * wref)) := rw_evs ++ [ (EStartSync 4 (mkSync rw_w WIdle false) 6, []) ].
+Lemma rw2_hypotheses : selectors_in_range (init rw_cfg 0) rw_evs2 /\ fresh_calls [] rw_evs2 /\ bg_scripts_ok rw_evs2 /\ learner_ids_unique rw_evs2 /\ causes_ok rw_evs2.
+Proof.
+  split; [apply selectors_in_rangeb_sound; vm_compute; reflexivity|]. split; [cbn; intuition congruence|].
+  split; [apply bg_scripts_okb_sound; vm_compute; reflexivity|]. split; [apply learner_ids_uniqueb_sound; vm_compute; reflexivity|apply causes_okb_sound; vm_compute; reflexivity].
+Qed.
+Lemma rw2_rejected : trace_sub [15%nat] rw_cfg 0 (model_trace rw_cfg 0 rw_evs2) = false /\
+  trace_sub [0;1;2;3;4;5;6;7;8;9;10;11;12;13;16;17;18]%nat rw_cfg 0 (model_trace rw_cfg 0 rw_evs2) = true.
+Proof. split; vm_compute; reflexivity. Qed.
